@@ -25,6 +25,10 @@ CasesFor(k) ==
     \* values over 1024 around zero on both sides of each tolerance; clamp of lattice values into lattice intervals
     [] k = "zeroclamp" -> {[op |-> "maybezero", n |-> n, tol |-> t] : n \in {-2048, -12, -11, -10, -9, -2, -1, 0, 1, 2, 9, 10, 11, 12, 512, 3000}, t \in Tols}
                           \cup {[op |-> "clamp", n |-> n, lo |-> lo, hi |-> lo + w] : n \in -6..6, lo \in {-5, -1, 0, 2}, w \in {0, 1, 4}}
+    \* values a power of two away from an integer on either side of the DEFAULT tolerances; spell: tolerances left to their defaults / passed explicitly
+    [] k = "snapfine" -> {[op |-> "snapfine", f |-> f, n |-> n, sg |-> sg, es |-> es, et |-> et, ew |-> ew, spell |-> sp] :
+                            f \in {"scale", "scale_inv", "affine"}, n \in {1, 2, 3, -2}, sg \in {1, -1}, es \in {0, 17, 19, 21, 23}, et \in {0, 7, 9, 11, 13}, ew \in {0, 24, 25, 28, 30},
+                            sp \in {"default", "explicit"}}
     [] k = "align" -> {[op |-> "align", x |-> x] : x \in AlignXs}
     [] k = "snapgrid" -> {[op |-> "snapgrid", x0 |-> x0, sp |-> sp, r |-> r, o |-> o, tol |-> t] : x0 \in SG.x0, sp \in SG.sp, r \in SG.r, o \in SG.o, t \in {<<1, 100>>}}
     [] k = "snapaffine" -> {[op |-> "snapaffine", sx |-> sx, tx |-> tx, sy |-> sy, ty |-> ty, rot |-> rot, tol |-> t, stol |-> st] :
@@ -41,7 +45,7 @@ CasesFor(k) ==
                         \* input transforms: every invertible integer matrix with entries in -1..2 (scales, mirrors, rotations, shears in the x row only,
                         \* in the y row only, in both), two translations
                         T \in {<<a, b, t[1], d, e, t[2]>> : a \in -1..2, b \in -1..2, d \in -1..2, e \in -1..2, t \in {<<0, 0>>, <<2, 1>>}} \ {x \in [1..6 -> -1..2] : x[1] * x[5] - x[2] * x[4] = 0}}
-Kinds == {"zeroclamp", "split", "nearint", "snapscale", "align", "snapgrid", "snapaffine", "rws", "affpts", "axis", "bin1d", "poly"}
+Kinds == {"zeroclamp", "split", "nearint", "snapscale", "snapfine", "align", "snapgrid", "snapaffine", "rws", "affpts", "axis", "bin1d", "poly"}
 PolyValid(c) == (c.kind = "affine" /\ c.nn \in {3, 6}) \/ (c.kind = "bilinear" /\ c.nn \in {4, 8}) \/ (c.kind = "biquad" /\ c.nn \in {9, 12})
 
 VARIABLE c
